@@ -23,7 +23,14 @@ Oracle (written from the property statement, independent of y0 and of the model;
       helpers: selection-node placement vs the independent rule, the diagram vs its set-theoretic definition, the
       line-6 separation test vs true m-separation (path enumeration), activation vs its meaning (the same terms read in
       the source domain under the intervention);
-  (R) the caller's graph / sets / dictionaries are unchanged by the call.
+  (e2) on every valid case: the selection DIAGRAM that surrogate_to_transport derives for every declared domain is the graph plus exactly
+      one parentless selection node T_v -> v for the v the independent rule marks;
+  (b') experiments declared, TRSO answers 'no estimand', ID returns an estimand: violated under either reading of the second sentence
+      (no experiment usable -> the verdict must be ID's; one usable -> using it is an estimand);
+  (R) the caller's graph / sets / dictionaries (contents and key order) are unchanged by the call.
+Every identify case is driven in an argument FORM that is a deterministic function of the case (harness/forms.py): insertion order of the
+domain keys, independently in the two dictionaries, and the public constructor / insertion order of the target graph.  The call runs
+inside `recursion_guard` (limit = depth + 250) so that an endless recursion is an outcome, not a check that does not finish.
 """
 from __future__ import annotations
 
@@ -54,7 +61,12 @@ RULE = ("random ADMGs with 2-6 nodes (isolated nodes, bidirected-only nodes, bow
         "ADMGs with W picked from different districts); plus relabelled/perturbed variants of the paper examples and of every past witness (nested "
         "c-component graphs that reach line 10 twice, line 10 inside a source domain, terms that contain only intervened "
         "variables); plus a malformed stream (overlapping X and Y, names outside the graph, mismatching domain keys); "
-        "plus direct calls of the helpers. A case is non-trivial when the graph has >=3 nodes and the run reaches one of "
+        "plus direct calls of the helpers; plus (mutation campaign D / generator review of round 5, appended after the streams above) TWO "
+        "domains that pass line 6 together (nested / equal / disjoint experiments inside X, either insertion order), THREE or FOUR domains "
+        "(one domain per outcome with |Y| = 3 in three districts; a bow with one usable domain of three; random), line 10 twice INSIDE a "
+        "source domain (every no-domain line-10 witness plus an experimental root X0 in X and a domain with Z = {X0}), 6-7 node graphs with "
+        "|X|, |Y| up to 4, activation of fractions nested in fractions / sums / products, the other key mismatches of the two dictionaries; "
+        "every identify case in an argument form derived from the case (key insertion orders, graph constructor). A case is non-trivial when the graph has >=3 nodes and the run reaches one of "
         "lines 4, 6, 9, 10 (recorded from the algorithm's own debug log).")
 ASSUMPTIONS = [
     "trso_sound (first sentence of the property) is PROVED at full strength for the Lean model (Props/C05 trso_sound: every "
@@ -638,7 +650,7 @@ class recursion_guard:
     would not finish).  Inside the guard the limit is the current depth + `extra`; a RecursionError is reported like any other
     exception on valid input.  The evidence tag `exception: RecursionError` shows whether the guard ever fired."""
 
-    def __init__(self, extra=400):
+    def __init__(self, extra=250):
         self.extra = extra
 
     def __enter__(self):
@@ -795,7 +807,7 @@ def _run_identify(case):
     except RecursionError:
         r = None
         out = ["err", "internal"]
-        fail = ("raised RecursionError (endless recursion: more than 400 nested frames on a graph with "
+        fail = ("raised RecursionError (endless recursion: more than 250 nested frames on a graph with "
                 f"{len(G.all_nodes(g))} nodes) on an input inside the quantifier (only 'no estimand' is allowed)") if valid else None
         tags["exception"] = "RecursionError"
     except Exception as e:  # noqa: BLE001
